@@ -44,7 +44,11 @@ function plan (seed, run, tier) {
 }
 
 function jobs (plan) {
-  if (plan.mode === 'h5') return [{ cfg: cfgOf('sim'), prng_seed: 1, file: FILE, code: plan.text }]
+  if (plan.mode === 'h5') {
+    const js = [{ cfg: cfgOf('sim'), prng_seed: 1, file: FILE, code: plan.text }]
+    if (plan.preJob) js.unshift({ cfg: cfgOf('other'), prng_seed: 1, file: '/sim/c06/pre.js', code: 'function pre(a, b) { const __datadog_other_9 = 1; return a + b; }\n' })
+    return js
+  }
   const r = render(plan.prog)
   return [{ cfg: cfgOf(plan.prefix), prng_seed: 1, file: FILE, code: r.text }]
 }
